@@ -63,9 +63,38 @@ S2EdgeScope ==
      types |-> <<1, 1, 2, 1, 2>>, sig |-> << <<w, <<1, 4>>>>, <<<<1, 2>>, w>> >>,
      rn |-> 1, rd |-> 2, nd |-> 4, savegr |-> FALSE] :
        p \in {<<1, 1>>, <<0, 0>>}, w \in {<<1, 4>>, <<1, 8>>}, q \in {<<7, 8>>, <<8, 8>>, <<10, 4>>} }
-\* the single-frame view of frame f (the operators of LocalOrder take one configuration)
-S2Raw(f) == [d |-> c.d, H |-> c.H, ppp |-> c.ppp, S |-> c.S, pos |-> c.fr[f], types |-> c.types, sig |-> c.sig,
-             rn |-> c.rn, rd |-> c.rd, nd |-> c.nd]
+\* sheared runs: 2-3 frames, constant box lengths, tilt factors (and, for every other seed, the type
+\* vector) change from frame to frame.  Only seeds are kept for which the frame's own cell matters:
+\* some pair of a later frame has a different minimum-image distance under the first frame's cell.
+NShear == IF Thorough THEN 600 ELSE 36
+ShearH(seed, d, f) ==
+  IF d = 2 THEN Tri2(7, Rnd(seed, 70 + f, 1, 0 - 3, 3), 5)
+  ELSE Tri3(7, 5, 7, Rnd(seed, 70 + f, 1, 0 - 3, 3), Rnd(seed, 70 + f, 2, 0 - 3, 3), Rnd(seed, 70 + f, 3, 0 - 2, 2))
+S2ShearRaw ==
+  { LET d  == 2 + (seed % 2)
+        n  == 3 + (Hh(seed, 1, 1) % 3)
+        K  == 1 + (Hh(seed, 1, 2) % 2)
+        T  == 2 + (Hh(seed, 1, 3) % 2)
+        dl == Pick(seed, 8, <<<<1, 5>>, <<1, 4>>, <<1, 2>>>>)
+        ty == [i \in 1..n |-> IF i <= K THEN i ELSE Rnd(seed, 30, i, 1, K)]
+        base == [id |-> 20000 + seed, d |-> d, H |-> ShearH(seed, d, 1),
+                 ppp |-> (IF Hh(seed, 4, 4) % 3 = 0 THEN MaskBits(Hh(seed, 4, 5), d) ELSE [k \in 1..d |-> 1]), S |-> Pick(seed, 5, <<1, 2>>),
+                 fr |-> [f \in 1..T |-> [i \in 1..n |-> [k \in 1..d |-> Rnd(seed, 40 * f + i, k, 0 - 1, 8)]]],
+                 types |-> ty,
+                 sig |-> [a \in 1..K |-> [b \in 1..K |-> Pick(seed + 3 * a + 11 * b, 6, <<<<1, 5>>, <<3, 10>>, <<1, 2>>, <<1, 1>>, <<2, 5>>>>)]],
+                 rn |-> dl[1], rd |-> dl[2], nd |-> Rnd(seed, 9, 9, 8, 16), savegr |-> ((Hh(seed, 2, 2) % 4) = 0),
+                 Hs |-> [f \in 1..T |-> ShearH(seed, d, f)]]
+    IN  IF seed % 2 = 0 /\ K = 2
+        THEN base @@ [tys |-> [f \in 1..T |-> IF f = 1 THEN ty ELSE [i \in 1..n |-> ty[n + 1 - i]]]]
+        ELSE base : seed \in 1..NShear }
+ShearMatters(x) ==
+  \E f \in 2..Len(x.fr) : \E i, j \in 1..Len(x.types) :
+     i < j /\ Norm2(LoImg(x.Hs[f], Adj(x.Hs[f]), Det(x.Hs[f]), VSub(x.fr[f][j], x.fr[f][i]), x.ppp))
+               # Norm2(LoImg(x.Hs[1], Adj(x.Hs[1]), Det(x.Hs[1]), VSub(x.fr[f][j], x.fr[f][i]), x.ppp))
+S2ShearScope == {x \in S2ShearRaw : ShearMatters(x)}
+\* the single-frame view of frame f (the operators of LocalOrder take one configuration): cell and types of frame f
+S2Raw(f) == [d |-> c.d, H |-> LoFrameH(c, f), ppp |-> c.ppp, S |-> c.S, pos |-> c.fr[f], types |-> LoFrameTypes(c, f),
+             sig |-> c.sig, rn |-> c.rn, rd |-> c.rd, nd |-> c.nd]
 \* all frames with their pair tables (bind with LET: evaluated once per use site)
 S2Frames == [f \in 1..Len(c.fr) |-> S2Prep(S2Raw(f))]
 
@@ -87,8 +116,14 @@ TetraFixed ==
 TetraRnd ==
   { LET n == 5 + (Hh(seed, 1, 1) % 4)
         H == Pick(seed, 3, << Tri3(7, 7, 9, 0, 0, 0), Tri3(9, 7, 7, 2, 0 - 3, 1), Tri3(5, 5, 5, 0, 0, 0), Tri3(11, 9, 7, 0, 0, 0) >>)
-    IN  [id |-> seed, kind |-> "rnd", H |-> H, ppp |-> MaskBits(Hh(seed, 4, 4), 3), S |-> Pick(seed, 5, <<1, 2, 4>>),
-         pos |-> [i \in 1..n |-> [k \in 1..3 |-> Rnd(seed, 40 + i, k, 0 - 1, H[k][k])]]] : seed \in 1..NSeeds }
+        base == [id |-> seed, kind |-> "rnd", H |-> H, ppp |-> MaskBits(Hh(seed, 4, 4), 3), S |-> Pick(seed, 5, <<1, 2, 4>>),
+                 pos |-> [i \in 1..n |-> [k \in 1..3 |-> Rnd(seed, 40 + i, k, 0 - 1, H[k][k])]]]
+    IN  \* every third case is a two-frame trajectory: another configuration in a cell with the same box
+        \* lengths and other tilt factors (the routine must take positions AND cell of frame 2 from frame 2)
+        IF seed % 3 = 0
+        THEN base @@ [H2   |-> Tri3(H[1][1], H[2][2], H[3][3], Rnd(seed, 71, 1, 0 - 3, 3), Rnd(seed, 71, 2, 0 - 3, 3), Rnd(seed, 71, 3, 0 - 2, 2)),
+                      pos2 |-> [i \in 1..n |-> [k \in 1..3 |-> Rnd(seed, 80 + i, k, 0 - 1, H[k][k])]]]
+        ELSE base : seed \in 1..NSeeds }
 \* a perturbed diamond cell: one atom displaced on the fine grid
 TetraPert ==
   { [id |-> seed, kind |-> "pert", H |-> Tri3(12, 12, 12, 0, 0, 0), ppp |-> <<1, 1, 1>>, S |-> 3,
@@ -107,6 +142,8 @@ Pyth(C) == IF C = 5 THEN << <<3, 4>>, <<4, 3>>, <<5, 0>>, <<0, 5>> >>
 UnitVec(seed, i, C) == LET p == Pick(seed + 5 * i, 20 + i, Pyth(C))
                            sx == 1 - 2 * (Hh(seed, i, 21) % 2)  sy == 1 - 2 * (Hh(seed, i, 22) % 2)
                        IN  <<sx * p[1], sy * p[2]>>
+\* row order of the neighbour file of one frame (identity for a third of the frames)
+NemOrder(seed, n) == IF Hh(seed, 8, 8) % 3 = 0 THEN [k \in 1..n |-> k] ELSE LoPermByKey(LAMBDA i : Hh(seed, i, 55) % 512, n)
 NemScope ==
   { LET n == 2 + (Hh(seed, 1, 1) % 4)
         C == Pick(seed, 2, <<5, 13, 25, 65>>)
@@ -115,8 +152,26 @@ NemScope ==
     IN  [id |-> seed, C |-> C,
          fr |-> [f \in 1..T |-> [i \in 1..n |-> UnitVec(seed + 1000 * f, i, C)]],
          nl |-> IF hasnl THEN [f \in 1..T |-> NLRnd(seed + 77 * f, n)] ELSE << >>,
-         Nmax |-> Pick(seed, 5, <<30, 4, 10>>)] : seed \in 1..NSeeds }
-NemNL(f) == IF c.nl = << >> THEN << >> ELSE c.nl[f]
+         roword |-> [f \in 1..T |-> NemOrder(seed + f, n)],
+         Nmax |-> Pick(seed, 5, <<30, 4, 10, 1, 2, 3>>)] : seed \in 1..NSeeds }     \* 1..3: below / at / above the counts
+\* long lists (cut-off style: 31..39 listed neighbours for each of 40 particles, more than the default
+\* Nmax = 30 of the routines) with Nmax above every count, between the counts, at a count, at the default, far below
+NBig == IF Thorough THEN 120 ELSE 14
+BigList(seed, n, i) ==
+  LET o  == Others(n, i)
+      pm == LoPermByKey(LAMBDA x : Hh(seed, i, x) % 512, Len(o))
+  IN  [x \in 1..(31 + (Hh(seed, i, 3) % 9)) |-> o[pm[x]]]
+NemBigScope ==
+  { LET n == 40
+        C == Pick(seed, 2, <<5, 13>>)
+        T == 1 + (Hh(seed, 1, 3) % 2)
+    IN  [id |-> 30000 + seed, C |-> C,
+         fr |-> [f \in 1..T |-> [i \in 1..n |-> UnitVec(seed + 1000 * f, i, C)]],
+         nl |-> [f \in 1..T |-> [i \in 1..n |-> BigList(seed + 77 * f, n, i)]],
+         roword |-> [f \in 1..T |-> NemOrder(seed + f, n)],
+         Nmax |-> Pick(seed, 5, <<50, 39, 35, 30, 31, 12, 200>>)] : seed \in 1..NBig }
+\* the lists of frame f as delivered for the argument Nmax
+NemNL(f) == IF c.nl = << >> THEN << >> ELSE LoTrunc(c.nl[f], c.Nmax)
 
 (***************************************************************************)
 (* gyr                                                                     *)
@@ -148,8 +203,8 @@ GyrScope ==
 GyCloud == IF c.kind = "rot" THEN GyRotate(c.base, c.Rn) ELSE c.base
 GyScale == c.S * c.rden
 
-Scope == IF IsM("s2") THEN S2Scope \cup S2EdgeScope ELSE IF IsM("tetra") THEN TetraScope
-         ELSE IF IsM("nematic") THEN NemScope ELSE {x \in GyrScope : Len(x.base) >= 2 /\ GyTr(GyNum(x.base)) > 0}
+Scope == IF IsM("s2") THEN S2Scope \cup S2EdgeScope \cup S2ShearScope ELSE IF IsM("tetra") THEN TetraScope
+         ELSE IF IsM("nematic") THEN NemScope \cup NemBigScope ELSE {x \in GyrScope : Len(x.base) >= 2 /\ GyTr(GyNum(x.base)) > 0}
 
 Key(x) == x.id + (IF IsM("tetra") THEN x.pos[1][1] + x.S + x.H[1][1] + Len(x.pos) + x.ppp[1] + x.pos[2][2] ELSE 0)
 Init == /\ c \in Scope
@@ -165,18 +220,36 @@ InvS2ContribSymmetric == IsM("s2") => LET P == S2Frames IN \A f \in 1..Len(c.fr)
 InvS2ClassConsistent  == IsM("s2") => LET P == S2Frames IN \A f \in 1..Len(c.fr) : S2ClassConsistent(P[f])
 \* the directly computed pair tables agree with Cell!MinImage (sampled pairs of every configuration)
 InvFastImage ==
-  /\ IsM("s2") => \A f \in 1..Len(c.fr) : \A j \in 2..Len(c.types) : LoFastIsMinImage(c.H, c.ppp, c.fr[f], 1, j)
+  /\ IsM("s2") => \A f \in 1..Len(c.fr) : \A j \in 2..Len(c.types) : LoFastIsMinImage(LoFrameH(c, f), c.ppp, c.fr[f], 1, j)
   /\ IsM("tetra") => \A j \in {2, 3, Len(c.pos)} : LoFastIsMinImage(c.H, c.ppp, c.pos, 1, j) /\ LoFastIsMinImage(c.H, c.ppp, c.pos, j, 1)
 \* the edge family really has neighbours exactly at r_max, decided sharply (not as ties)
 InvS2EdgeFamily == (IsM("s2") /\ c.id = 0) =>
    LET P == S2Frames IN /\ S2HasSharpEdge(P[1], 1) /\ ~S2Tie(P[1], 1)
                         /\ 2 \notin Range(S2Contrib(P[1], 1)) /\ 3 \notin Range(S2Contrib(P[1], 1))
 
+\* per-frame cells: well formed, box lengths (hence the density) the same in every frame, and every
+\* sheared case has a later frame in which the frame's own cell decides a distance
+InvS2FrameCells == IsM("s2") =>
+   LET P == S2Frames IN
+   /\ LoFramesWellFormed(c, Len(c.fr))
+   /\ \A f \in 1..Len(c.fr) : S2Vol(P[f]) = S2Vol(P[1]) /\ P[f].H = LoFrameH(c, f) /\ P[f].types = LoFrameTypes(c, f)
+   /\ c.id > 20000 => ShearMatters(c)
+
 TeRT == TeTable(c.H, c.ppp, c.pos)
 TeTT == TeTieTable(c.H, c.ppp, c.pos)
 TeDg == IsDiagonal(c.H)
-InvTeRegularIsPerfect == IsM("tetra") => TeRegularIsPerfect(TeRT, TeTT, TeDg)
-InvTeFourAreNearest   == IsM("tetra") => TeFourAreNearest(TeRT, TeTT, TeDg)
+\* second frame of a two-frame case
+TeHas2 == "pos2" \in DOMAIN c
+TeRT2 == TeTable(c.H2, c.ppp, c.pos2)
+TeTT2 == TeTieTable(c.H2, c.ppp, c.pos2)
+TeDg2 == IsDiagonal(c.H2)
+InvTeRegularIsPerfect == IsM("tetra") => /\ TeRegularIsPerfect(TeRT, TeTT, TeDg)
+                                         /\ TeHas2 => TeRegularIsPerfect(TeRT2, TeTT2, TeDg2)
+InvTeFourAreNearest   == IsM("tetra") => /\ TeFourAreNearest(TeRT, TeTT, TeDg)
+                                         /\ TeHas2 => TeFourAreNearest(TeRT2, TeTT2, TeDg2)
+\* frames of a trajectory: same particle number and box lengths, lower-triangular cells
+InvTeFrames == (IsM("tetra") /\ TeHas2) => /\ Len(c.pos2) = Len(c.pos) /\ IsLowerTri(c.H2)
+                                            /\ \A k \in 1..3 : c.H2[k][k] = c.H[k][k]
 \* the diamond-lattice environment is perfect for every atom, and so is the centre of each cluster
 InvTeDiamond == IsM("tetra") =>
    /\ c.kind = "diamond" => \A i \in 1..8 : ~TeTie(TeRT, TeTT, TeDg, i) /\ TePerfectB(TeBonds(TeRT, i))
@@ -186,6 +259,14 @@ InvNmSymTraceless   == IsM("nematic") => \A f \in 1..Len(c.fr) : NmSymTraceless(
 InvNmTraceEqualsEig == IsM("nematic") => \A f \in 1..Len(c.fr) : NmTraceEqualsEigen(c.fr[f], c.C, NemNL(f))
 InvNmRawIsOne       == IsM("nematic") => \A f \in 1..Len(c.fr) : NmRawIsOne(c.fr[f], c.C)
 InvNmInUnitRange    == IsM("nematic") => \A f \in 1..Len(c.fr) : NmInUnitRange(c.fr[f], c.C, NemNL(f))
+\* truncation to Nmax; the row order of the file is not part of the input; the long-list family really
+\* has counts above the routines' default of 30
+InvNmTruncation     == IsM("nematic") => \A f \in 1..Len(c.fr) : c.nl # << >> => NmTruncation(c.nl[f], c.Nmax)
+InvNmRowOrder       == IsM("nematic") => \A f \in 1..Len(c.fr) :
+                          /\ LoIsPerm(c.roword[f], Len(c.fr[f]))
+                          /\ c.nl # << >> => LoOfRows(LoRows(c.nl[f], c.roword[f])) = c.nl[f]
+InvNmBigFamily      == (IsM("nematic") /\ c.id > 30000) =>
+                          \A f \in 1..Len(c.fr) : \A i \in 1..Len(c.fr[f]) : Len(c.nl[f][i]) > 30 /\ Len(c.nl[f][i]) < 40
 InvNmUnitVectors    == IsM("nematic") => \A f \in 1..Len(c.fr) : \A i \in 1..Len(c.fr[f]) : Norm2(c.fr[f][i]) = c.C * c.C
 
 InvGyKappaIdentity  == IsM("gyr") => GyKappaIdentity(c.base)
@@ -203,6 +284,7 @@ CaseS2 ==
   LET P == S2Frames  T == Len(c.fr)  n == Len(c.types) IN
   [ m |-> "s2", id |-> c.id, d |-> c.d, H |-> c.H, ppp |-> c.ppp, S |-> c.S, fr |-> c.fr, types |-> c.types,
     sig |-> c.sig, rn |-> c.rn, rd |-> c.rd, nd |-> c.nd, savegr |-> c.savegr,
+    Hs  |-> [f \in 1..T |-> LoFrameH(c, f)], tys |-> [f \in 1..T |-> LoFrameTypes(c, f)],
     contrib |-> [f \in 1..T |-> [i \in 1..n |-> S2Contrib(P[f], i)]],
     tie     |-> [f \in 1..T |-> [i \in 1..n |-> S2Tie(P[f], i)]],
     edge    |-> [f \in 1..T |-> [i \in 1..n |-> S2HasSharpEdge(P[f], i)]],
@@ -212,18 +294,24 @@ CaseS2 ==
                 THEN [f \in 1..T |-> [i \in 1..n |-> [k \in 1..c.nd |-> S2GT(P[f], i, k)]]]
                 ELSE << >> ]
 
-TetraRow(rt, tt, i) ==
-  LET tie == TeTie(rt, tt, TeDg, i)
+TetraRow(rt, tt, dg, i) ==
+  LET tie == TeTie(rt, tt, dg, i)
       b   == TeBonds(rt, i)
   IN  [ tie |-> tie, four |-> TeFour(rt, i), perfect |-> (~tie /\ TePerfectB(b)),
         q |-> IF tie THEN "tie" ELSE TetraTermB(b) ]
 CaseTetra ==
-  LET rt == TeRT  tt == TeTT IN
-  [ m |-> "tetra", id |-> c.id, kind |-> c.kind, H |-> c.H, ppp |-> c.ppp, S |-> c.S, pos |-> c.pos,
-    rows |-> [i \in 1..Len(c.pos) |-> TetraRow(rt, tt, i)] ]
+  LET rt == TeRT  tt == TeTT
+      one == [ m |-> "tetra", id |-> c.id, kind |-> c.kind, H |-> c.H, ppp |-> c.ppp, S |-> c.S, pos |-> c.pos,
+               rows |-> [i \in 1..Len(c.pos) |-> TetraRow(rt, tt, TeDg, i)] ]
+  IN  IF TeHas2
+      THEN LET rt2 == TeRT2  tt2 == TeTT2 IN
+           one @@ [ H2 |-> c.H2, pos2 |-> c.pos2, rows2 |-> [i \in 1..Len(c.pos2) |-> TetraRow(rt2, tt2, TeDg2, i)] ]
+      ELSE one
 
 CaseNem ==
   [ m |-> "nematic", id |-> c.id, C |-> c.C, fr |-> c.fr, nl |-> c.nl, Nmax |-> c.Nmax,
+    rows   |-> IF c.nl = << >> THEN << >> ELSE [f \in 1..Len(c.fr) |-> LoRows(c.nl[f], c.roword[f])],
+    used   |-> [f \in 1..Len(c.fr) |-> IF c.nl = << >> THEN << >> ELSE [i \in 1..Len(c.fr[f]) |-> Len(NemNL(f)[i])]],
     order  |-> [f \in 1..Len(c.fr) |-> [i \in 1..Len(c.fr[f]) |-> NmOrderT(c.fr[f], c.C, NemNL(f), i)]],
     tensor |-> [f \in 1..Len(c.fr) |-> [i \in 1..Len(c.fr[f]) |-> NmTensorT(c.fr[f], c.C, NemNL(f), i)]] ]
 
